@@ -47,7 +47,7 @@ def join_spec(mode, per_branch_chunks):
     return out
 
 
-def cases(tier, rng):
+def _cases(tier, rng):
     yield {'kind': 'mux', 'term': [['tee', 'zip', [[['count', False]], [['map', ['add', 10]]]]]], 'items': [1, 2, 3]}
     yield {'kind': 'mux', 'term': [['tee', 'combine_latest', [[['filter', ['is_even']]], [['count', True]], [['identity']]]]], 'items': [1, 2, 3, 4]}
     yield {'kind': 'plain', 'term': [['tee', 'zip', [[['sum', None, True]], [['last']], [['first']]]]], 'items': [1, 2, 3, 4]}
@@ -83,7 +83,7 @@ def _branches_alone(kind, bs, items):
     return per
 
 
-def oracle(case, r):
+def _oracle(case, r):
     if 'harness_exc' in r:
         return 'real code raised: ' + r['harness_exc']
     t = case['term']
@@ -144,3 +144,14 @@ def tags(case, r):
 
 def violation_class(case, text):
     return case['kind']
+
+
+def cases(tier, rng):
+    """every case of `_cases`, and for a fraction of the mux/plain ones the same case run as the SECOND subscription of
+    its pipeline object (after an earlier subscription that completed, failed or was disposed)"""
+    pr = rng.sub('resubscription')
+    return muxprop.with_preludes(_cases(tier, rng), pr)
+
+
+def oracle(case, r):
+    return muxprop.prelude_violation(case, r) or _oracle(case, r)
